@@ -1957,6 +1957,10 @@ class BaseDocWriter(object):
                     )
                 subsetsElement.append(subsetElement)
             vfElement.append(subsetsElement)
+        else:
+            # the reader requires the element; an empty one means that every
+            # axis is at its default location
+            vfElement.append(ET.Element("axis-subsets"))
         self._addLib(vfElement, vf.lib, 4)
         parentElement.append(vfElement)
 
